@@ -9,6 +9,7 @@ import QipVerif.Gen.DecompLabels
   item  = `M` (a measurement) | NAME/targets/controls/angle/label/cond
   label = `n` | `f<k>_<m>` (the text kπ/m) | `u<id>` (a user's text)
   cond  = `n` | `<bits>:<value>`            fgate = item fields + `/src` (`n` | index of the input gate passed through)
+* `buildable gates=<list>` → `1,0,…`: do the constructors of the gate classes accept name + controls (`Decomp.buildable`)
 -/
 open QipVerif QipVerif.Proto QipVerif.GateIO QipVerif.Decomp
 
@@ -46,7 +47,7 @@ def cond? (s : String) : Option (Option Cond) :=
 def showCond : Option Cond → String
   | none => "n" | some c => s!"{showNatsDot c.bits}:{c.value}"
 
-def item? (s : String) : Option Item :=
+def item? (s : String) : Option CircItem :=
   if s == "M" then some .meas else
   match s.splitOn "/" with
   | [n, t, c, a, l, k] =>
@@ -55,14 +56,14 @@ def item? (s : String) : Option Item :=
     | _, _, _, _, _ => none
   | _ => none
 
-def items? (s : String) : Option (List Item) :=
+def items? (s : String) : Option (List CircItem) :=
   if s == "-" then some [] else (splitNE s ";").mapM item?
 
 def showF (f : FGate) : String :=
   let src := match f.src with | some i => toString i | none => "n"
   s!"{showGate f.g}/{showLab f.lab}/{showCond f.cond}/{src}"
 
-def variant? (s : String) : Option Variant :=
+def variant? (s : String) : Option FVariant :=
   match s.toList with
   | [a, b, c] =>
     if [a, b, c].all (fun x => x == '0' || x == '1') then some ⟨a == '1', b == '1', c == '1'⟩ else none
@@ -78,6 +79,10 @@ def step (line : String) : String :=
       | .ok out => "ok " ++ showGates out
       | .error e => "err " ++ errName e
     | _, _, _ => "bad-op"
+  | some "buildable" =>
+    match (fStr? fs "gates").bind gates? with
+    | some gs => ",".intercalate (gs.map fun g => if buildable g then "1" else "0")
+    | none => "bad-op"
   | some "resolvef" =>
     match (fStr? fs "v").bind variant?, (fStr? fs "basis").bind basis?, (fStr? fs "items").bind items? with
     | some v, some b, some its =>
